@@ -1,10 +1,16 @@
 /-
   Props/C03.lean — property C03: nothing a person wrote is ever attributed to an AI session.
-  History-level theorem over Model/Sys.lean (commit / partial commit / checkpoint fragment); the
-  destructive porcelain (reset, checkout, restore, stash, rebase …) is covered by the end-to-end
-  random walks of vlib/props/c03.py, not by this theorem.
+  §1 History-level theorem over Model/Sys.lean (commit / partial commit / checkpoint fragment).
+  §2 The same statement over the UNION alphabet `DOp` = Sys ops ∪ the history-rewriting operations of
+     Model/Rewrite.lean ∪ the discarding operations of Model/Discard.lean (path checkout, restore,
+     reset --hard, checkout -f, switch --discard-changes, stash drop, partial stash, …), by extending
+     the combined invariant `RInv2` (Lemmas/Discard.lean, Lemmas/DiscardRun.lean); the regressions
+     O3, O17, O20, O21 as decided contrasts between the pre-fix and the current behaviour.
+  The model is tied to the binary by vlib/props/c03.py (`correspondence:discard-e2e`): the C03 walks and
+  recipes inside the alphabet are replayed by the driver op `disc_run`, notes and blame must agree.
 -/
 import GitAiModel.Props.C04
+import GitAiModel.Lemmas.DiscardRun
 namespace GitAi.Sys
 
 /-- **no invention.** In every valid history (any interleaving of human edits, agent edits by any
@@ -76,8 +82,228 @@ example : ValidOps2 (cleanSpec [1, 2, 3] (fun _ => none))
   simp [ValidOps2, ValidOp2, ValidEdit, ValidEditH, CommitOK, Settled, cleanSpec, specStep, step, checkpoint, previous, commitStep,
     credit, enum1, enumFrom, initialAuthor, checkpointAttr, lookup, effective]
 
+/-! ## 2. The whole alphabet: edits, staging, commits, history rewriting and DISCARDING operations -/
+
+theorem StashInv.mem {g : Nat → Author} {seen : List Nat} :
+    ∀ {es : List (List Nat × List (Nat × Nat))} {hds : List (List Nat)}, StashInv g seen es hds →
+      ∀ e ∈ es, ∃ hd, StashEntryOK g seen hd e
+  | [], [], _, e, he => by simp at he
+  | x :: xs, hd :: hds, h, e, he => by
+    rcases List.mem_cons.1 he with rfl | he'
+    · exact ⟨hd, h.1⟩
+    · exact StashInv.mem h.2 e he'
+  | [], _ :: _, h, _, _ => h.elim
+  | _ :: _, [], h, _, _ => h.elim
+
+/-- **no invention, every operation.** From a clean repository, after ANY valid finite sequence over
+    the union alphabet — human and agent edits, checkpoints, staging, commits; amend, reset
+    --soft or --mixed, rebase / cherry-pick replays, squash preparation, stash push / pop / apply, branch
+    switches carrying the work (plain and `-m`), aborted operations; `checkout -- <path>`, `restore`,
+    `restore --staged`, `reset`, `reset --hard [HEAD~k]`, `checkout -f` (same or other tip), `switch
+    --discard-changes`, `stash drop`, partial `stash push -- <pathspec>`, pop of a stash without note —
+    every claim git-ai holds names the session that made the last substantive change to that very line:
+    (1) blame at every commit of the current branch, (2) the working log as commit time reads it,
+    (3) INITIAL while no entry has taken it over, (4) every entry of the stash stack.
+    A line a person wrote (ghost `none`) or another session wrote is never listed under `s`. -/
+theorem no_invention_all_ops (root : List Nat) (g0 : Nat → Author) (hnd : root.Nodup)
+    (hroot : ∀ y ∈ root, g0 y = none) (ops : List DOp)
+    (hv : ValidDOps root ⟨cleanSpec root g0, [], []⟩ ops) :
+    let r := dspecRun ⟨cleanSpec root g0, [], []⟩ ops
+    (∀ k, ∀ y ∈ tipOf root (r.sp.st.log.drop k), ∀ s,
+        blame (r.sp.st.log.drop k) (r.sp.st.notes.drop k) y = some s → r.sp.g y = some s) ∧
+    (∀ y s, wlAuthor r.sp.st y = some s → r.sp.g y = some s) ∧
+    (r.sp.st.entries = [] → ∀ i s, (i, s) ∈ r.sp.st.initial →
+        ∃ y, (i, y) ∈ enum1 r.sp.st.initSnap ∧ r.sp.g y = some s) ∧
+    (∀ e ∈ r.stash, ∀ i s, (i, s) ∈ e.2 → ∃ y, (i, y) ∈ enum1 e.1 ∧ r.sp.g y = some s) := by
+  intro r
+  have h0 : RInv root (cleanSpec root g0) :=
+    ⟨cleanSpec_inv2 root g0 hnd, trivial, rfl, hroot, fun y hy => hy, hnd, by intro cp hcp; simp [cleanSpec] at hcp⟩
+  have h00 : RInv2 root ⟨cleanSpec root g0, [], []⟩ := ⟨h0, trivial⟩
+  obtain ⟨h, hs⟩ := dspecRun_inv root _ ops h00 hv
+  have htarget : ∀ y s, target r.sp y = some s → r.sp.g y = some s := by
+    intro y s ht
+    unfold target at ht
+    by_cases hh : y ∈ r.sp.st.head
+    · simp [hh] at ht
+    · simpa [hh] using ht
+  refine ⟨?_, ?_, ?_, ?_⟩
+  · intro k y hy s hb
+    rw [← (h.hist.drop k).tip h.rootHuman y hy]; exact hb
+  · intro y s hw
+    rw [wlAuthor_spec r.sp h.inv2] at hw
+    by_cases hy : y ∈ r.sp.st.work
+    · simp only [hy, if_true] at hw; exact htarget y s hw
+    · simp [hy] at hw
+  · intro he i s hm
+    have hl := h.inv2.latest
+    rw [he] at hl
+    simp only [List.getLast?_nil] at hl
+    rcases hl with ⟨hi, _⟩ | ⟨_, hi, _, _, _⟩
+    · rw [hi] at hm; simp at hm
+    · rw [hi] at hm
+      obtain ⟨y, hy, hF⟩ := claimsFrom_mem 1 _ _ (i, s) hm
+      exact ⟨y, hy, htarget y s hF⟩
+  · intro e he i s hm
+    obtain ⟨hd, h1, _, _⟩ := StashInv.mem hs e he
+    rw [h1] at hm
+    obtain ⟨y, hy, hF⟩ := claimsFrom_mem 1 _ _ (i, s) hm
+    refine ⟨y, hy, ?_⟩
+    by_cases hh : y ∈ hd
+    · simp [hh] at hF
+    · simpa [hh] using hF
+
+/-- **no invention, the note of every commit of every such history** (the statement of `no_invention`
+    over the union alphabet): whatever the note written by a commit lists under session `s` is a staged
+    line whose ghost author is `s`. -/
+theorem no_invention_all_ops_note (root : List Nat) (g0 : Nat → Author) (hnd : root.Nodup)
+    (hroot : ∀ y ∈ root, g0 y = none) (pre post : List DOp)
+    (hv : ValidDOps root ⟨cleanSpec root g0, [], []⟩ (pre ++ .r (.base .commit) :: post))
+    (note : Note) (i s : Nat) :
+    let r := dspecRun ⟨cleanSpec root g0, [], []⟩ pre
+    (step r.sp.st .commit).notes.head? = some note → (i, s) ∈ note →
+    ∃ y, (i, y) ∈ enum1 r.sp.st.index ∧ r.sp.g y = some s := by
+  intro r hnote hmem
+  have h0 : RInv root (cleanSpec root g0) :=
+    ⟨cleanSpec_inv2 root g0 hnd, trivial, rfl, hroot, fun y hy => hy, hnd, by intro cp hcp; simp [cleanSpec] at hcp⟩
+  have h00 : RInv2 root ⟨cleanSpec root g0, [], []⟩ := ⟨h0, trivial⟩
+  obtain ⟨hv1, hv2⟩ := validDOps_append root _ pre _ hv
+  have h := (dspecRun_inv root _ pre h00 hv1).1
+  have hok : CommitOK3 r.sp := hv2.1
+  have := (commit_spec r.sp h.inv2 hok.1).1
+  have hn : (step r.sp.st .commit).notes.head? = some (expectedPartialNote r.sp) := this
+  rw [hn] at hnote
+  cases hnote
+  obtain ⟨y, hm, _, _, hg⟩ := mem_expectedPartialNote r.sp i s hmem
+  exact ⟨y, hm, hg⟩
+
+/-- a working log without entries and without INITIAL credits nobody, whatever the file contains -/
+theorem wlAuthor_no_claims (st : State) (he : st.entries = []) (hi : st.initial = []) (y : Nat) :
+    wlAuthor st y = none := by
+  unfold wlAuthor effective
+  rw [he, hi]
+  simp only [List.getLast?_nil]
+  rw [checkpointAttr_no_claims, lookup_map]
+  by_cases hy : y ∈ st.work <;> simp [hy]
+
+/-- **a discarding operation drops the claims about what it discards.** After `git checkout -- <path>`,
+    `git reset --hard [HEAD~k]` and `git checkout -f <other>` / `git switch --discard-changes <other>` the
+    file has no working-log entry and no INITIAL claim, so WHATEVER is typed into the file next (`ys`),
+    the working log credits none of it to a session; `git stash drop` removes the newest stash entry
+    together with its claims and leaves the others alone. (`git restore <path>`, `git checkout <path>`
+    and `git checkout -f` on the same tip run no hook: the claims stay and are re-examined through their
+    recorded content — that they never credit a person's line is `no_invention_all_ops`.) -/
+theorem discard_drops_claims (r : RState) :
+    (∀ ys y, wlAuthor { (dstep r .discardFile).st with work := ys } y = none) ∧
+    (∀ k ys y, wlAuthor { (dstep r (.resetHard k)).st with work := ys } y = none) ∧
+    (∀ l n h ys y, wlAuthor { (dstep r (.checkoutForce l n h)).st with work := ys } y = none) ∧
+    (dstep r .stashDrop).stash = r.stash.tail ∧
+    (dstep r .discardFile).stash = r.stash :=
+  ⟨fun _ y => wlAuthor_no_claims _ rfl rfl y, fun _ _ y => wlAuthor_no_claims _ rfl rfl y,
+   fun _ _ _ _ y => wlAuthor_no_claims _ rfl rfl y, rfl, rfl⟩
+
+/-! ### regressions: the pre-fix reading of the claims against the current one -/
+
+/-- the state the four regressions start from: an agent (session 7) inserted `10`, `11`; a commit that
+    takes nothing of the file (a partial commit of another file) leaves them pending in INITIAL -/
+def pendingBase : State :=
+  run { head := [1, 2, 3], index := [1, 2, 3], work := [1, 2, 3] } [.aiEdit 7 [1, 2, 10, 11, 3], .commit]
+
+/-- **O3 (cad0dd6e).** `git checkout -- f` of the last file with pending lines; the person types `20`,
+    `21` where the AI lines were; commit. Now: the claims are gone, the note is empty. Before: the
+    INITIAL file stayed (`discardFileLegacy`) and its bare line numbers credited the typed lines. -/
+theorem regression_O3_stale_initial_after_path_checkout :
+    (drun ⟨pendingBase, []⟩ [.discardFile, .r (.base (.humanEdit [1, 2, 20, 21, 3])), .r (.base .stageAll),
+      .r (.base .commit)]).st.notes.head? = some [] ∧
+    pendingBase.initial = [(3, 7), (4, 7)] ∧
+    legacyNote { discardFileLegacy pendingBase with work := [1, 2, 20, 21, 3], index := [1, 2, 20, 21, 3] }
+      (discardFileLegacy pendingBase).initial = [(3, 7), (4, 7)] := by decide
+
+/-- **O20 (9561d78f).** `git restore f` / `git checkout f` / `git checkout -f` run no hook: INITIAL stays.
+    The person retypes; commit. Now: INITIAL is read through the content recorded with it, the typed
+    lines are nobody's. Before: bare line numbers applied to whatever the file contained. -/
+theorem regression_O20_initial_by_line_number_after_restore :
+    (drun ⟨pendingBase, []⟩ [.restoreFile, .r (.base (.humanEdit [1, 2, 20, 21, 3])), .r (.base .stageAll),
+      .r (.base .commit)]).st.notes.head? = some [] ∧
+    (drun ⟨pendingBase, []⟩ [.checkoutForceSame, .r (.base (.humanEdit [1, 2, 20, 21, 3])), .r (.base .stageAll),
+      .r (.base .commit)]).st.notes.head? = some [] ∧
+    legacyNote { restoreFile pendingBase with work := [1, 2, 20, 21, 3], index := [1, 2, 20, 21, 3] }
+      (restoreFile pendingBase).initial = [(3, 7), (4, 7)] := by decide
+
+/-- **O17 (36801845).** The commit at HEAD added `2`, `3` (a person's). An agent inserts `9`, the person
+    puts the file back (`git restore`), then amends. Now: the checkpoint re-examines the file although git
+    reports it unchanged, the stale entry is superseded, the amended note is empty. Before: the
+    checkpoint was skipped and the stale entry's line number 2 credited the person's line `2`. -/
+theorem regression_O17_stale_entry_after_restore :
+    let st0 : State := { head := [1, 2, 3], index := [1, 2, 3], work := [1, 2, 3], log := [([1, 2, 3], [1])], notes := [[]] }
+    let st1 := run st0 [.aiEdit 7 [1, 9, 2, 3]]
+    (drun ⟨st1, []⟩ [.restoreFile, .r .amend]).st.notes.head? = some [] ∧
+    (restoreFile st1).entries.getLast?.map entryClaims = some [(2, 7)] ∧
+    legacyNote { restoreFile st1 with head := [1] } [(2, 7)] = [(2, 7)] := by decide
+
+/-- **O21 (e9a96f54).** Pending lines after a partial commit; `git stash` (its human checkpoint takes
+    INITIAL over: a human-kind entry that carries AI lines), `git stash drop`; the person types; commit.
+    Now: the pre-commit checkpoint runs, the typed lines are nobody's. Before: it was skipped (no AI
+    checkpoint in the working log) and the entry's line numbers credited the typed lines. -/
+theorem regression_O21_stash_drop_stale_entry :
+    let r1 := rstep ⟨pendingBase, []⟩ .stashPush
+    (drun ⟨pendingBase, []⟩ [.r .stashPush, .stashDrop, .r (.base (.humanEdit [1, 2, 20, 21, 3])), .r (.base .stageAll),
+      .r (.base .commit)]).st.notes.head? = some [] ∧
+    r1.st.entries.getLast?.map entryClaims = some [(3, 7), (4, 7)] ∧
+    legacyNote { r1.st with work := [1, 2, 20, 21, 3], index := [1, 2, 20, 21, 3] } [(3, 7), (4, 7)] = [(3, 7), (4, 7)] := by
+  decide
+
+/-! ### the hypotheses: satisfiable, and what they exclude -/
+
+/-- non-vacuity: pending lines, path checkout, retype, commit; an agent edit, `reset --hard`; an agent
+    edit, stash, stash drop; `checkout -f`; a commit and `reset --hard HEAD~1` -/
+example : ValidDOps [1, 2, 3] ⟨cleanSpec [1, 2, 3] (fun _ => none), [], []⟩
+    [.r (.base (.aiEdit 7 [1, 2, 10, 11, 3])), .r (.base .commit), .discardFile,
+     .r (.base (.humanEdit [1, 2, 20, 3])), .r (.base .stageAll), .r (.base .commit),
+     .r (.base (.aiEdit 8 [1, 2, 20, 30, 3])), .resetHard 0,
+     .r (.base (.aiEdit 8 [1, 2, 20, 31, 3])), .r .stashPush, .stashDrop, .checkoutForceSame, .restoreFile, .unstageAll,
+     .r (.base (.aiEdit 7 [1, 2, 20, 32, 3])), .r (.base .stageAll), .r (.base .commit), .resetHard 1] := by
+  refine ⟨?_, ?_, ?_, ?_, trivial, ?_, ?_, ?_, ?_, trivial, trivial, trivial, ?_, trivial, ?_, trivial, ?_, ?_, trivial⟩
+  · exact ⟨by decide, by decide⟩
+  · exact ⟨⟨by decide, by decide⟩, by decide, by decide⟩
+  · exact ⟨by decide, by decide, by decide⟩
+  · exact ⟨by decide, by decide⟩
+  · exact ⟨⟨by decide, by decide⟩, by decide, by decide⟩
+  · exact ⟨by decide, by decide⟩
+  · exact ⟨by decide⟩
+  · exact ⟨by decide, by decide⟩
+  · exact ⟨by decide, by decide, by decide⟩
+  · exact ⟨by decide, by decide⟩
+  · exact ⟨⟨by decide, by decide⟩, by decide, by decide⟩
+  · exact ⟨by decide⟩
+
+/-- **what `IndexClean` excludes, decided.** An agent's line `9` is staged (`git add`), the person edits
+    further, then `git checkout -- f`: git puts the staged version — with `9` — back into the working
+    tree and the hook removes every claim of the file. The commit lists nothing: the AI line is LOST
+    (ghost `some 7`, blame `none`), nothing is invented. The excluded region of `IndexClean` / `WorkOK`
+    only contains such losses (the other direction, C01/C02's concern). -/
+theorem witness_path_checkout_loses_staged_ai_line :
+    let r := dspecRun ⟨cleanSpec [1, 2, 3] (fun _ => none), [], []⟩
+      [.r (.base (.aiEdit 7 [1, 9, 2, 3])), .r (.base .stageAll), .r (.base (.humanEdit [1, 9, 2, 3, 4])), .discardFile,
+       .r (.base .stageAll), .r (.base .commit)]
+    r.sp.st.head = [1, 9, 2, 3] ∧ r.sp.g 9 = some 7 ∧ blame r.sp.st.log r.sp.st.notes 9 = none ∧
+    ¬ IndexClean (dspecRun ⟨cleanSpec [1, 2, 3] (fun _ => none), [], []⟩
+      [.r (.base (.aiEdit 7 [1, 9, 2, 3])), .r (.base .stageAll), .r (.base (.humanEdit [1, 9, 2, 3, 4]))]).sp := by
+  refine ⟨by decide, by decide, by decide, ?_⟩
+  intro h
+  have := h.clean 9 (by decide)
+  revert this
+  decide
+
 end GitAi.Sys
 
+#print axioms GitAi.Sys.no_invention_all_ops
+#print axioms GitAi.Sys.no_invention_all_ops_note
+#print axioms GitAi.Sys.discard_drops_claims
+#print axioms GitAi.Sys.regression_O3_stale_initial_after_path_checkout
+#print axioms GitAi.Sys.regression_O20_initial_by_line_number_after_restore
+#print axioms GitAi.Sys.regression_O17_stale_entry_after_restore
+#print axioms GitAi.Sys.regression_O21_stash_drop_stale_entry
+#print axioms GitAi.Sys.witness_path_checkout_loses_staged_ai_line
 #print axioms GitAi.Sys.no_invention
 #print axioms GitAi.Sys.ghost_only_from_agent_edit
 #print axioms GitAi.Sys.restore_is_valid_edit
